@@ -94,7 +94,10 @@ func c10State(c *Ctx, n *Node) []Violation {
 }
 
 func checkC10(e *RunEnv) *CheckResult {
-	N := []string{"a", "ab", "a-b", "a.b", "b", "main", "C"}
+	N := []string{"a", "a.b", "b", "main", "C", "c", "a.lock"}
+	if e.Thorough() {
+		N = append(N, "ab", "a-b")
+	}
 	spec := &Spec{
 		Seeds: []Seed{{"S0", seedS0()}, {"S1", seedS1()}, {"S2", seedS2()}},
 		Depth: e.pick(3, 4),
@@ -110,6 +113,9 @@ func checkC10(e *RunEnv) *CheckResult {
 				add(Run("switch", nm))
 				add(Run("switch", "-c", nm))
 			}
+			add(Run("switch", "."), "name:dot")
+			add(Run("switch", ".."), "name:dotdot")
+			add(Run("branch", "-d", "."), "name:dot")
 			pool := commitPool(a)
 			for _, nm := range N {
 				_, exists := a.Branches[nm]
